@@ -167,9 +167,12 @@ package types
 //@ ensures [C03] {exact} total-sold-is-the-capped-demand: res != nil ==> res.MatchedAmount == cappedDemand(allowedBidders, prices, bidsByPrice, matchPrice)
 //@ ensures [C03] {exact} gives-up-only-when-the-capped-demand-exceeds-the-offer: res == nil ==> cappedDemand(allowedBidders, prices, bidsByPrice, matchPrice) > sellingAmt
 //@ ensures [C05,C10] only-allow-listed-bidders-are-matched: res != nil ==> forall(w, string, has(res.MatchResultByBidder, w) ==> indexIn(allowedBidders, Bidder, w) >= 0)
+//@ ensures [C04,C07] {~light} per-bidder-results-are-non-negative: res != nil ==> forall(w, string, has(res.MatchResultByBidder, w) ==> res.MatchResultByBidder[w].MatchedAmount >= 0 && res.MatchResultByBidder[w].PayingAmount >= 0)
+//@ ensures [C03,C05] {~light} only-bidders-with-a-bid-in-the-book-are-matched: res != nil ==> forall(w, string, has(res.MatchResultByBidder, w) ==> exists(i, int, exists(j, int, 0 <= i && i < len(prices) && 0 <= j && j < len(bidsByPrice[decStr(prices[i])]) && bidsByPrice[decStr(prices[i])][j].Bidder == w)))
 //@ ensures [C04] {pay} pays-the-matching-price-within-one-unit-per-bid: res != nil ==> forall(w, string, has(res.MatchResultByBidder, w) ==> let(r, res.MatchResultByBidder[w], matchPrice * r.MatchedAmount <= r.PayingAmount * S && r.PayingAmount * S <= matchPrice * r.MatchedAmount + S * cntUpTo(w, prices, bidsByPrice, len(prices), matchPrice) && r.MatchedAmount >= 0 && r.PayingAmount >= 0))
 //@ ensures [C16,C03] only-bids-that-receive-coins-are-listed-as-matched: res != nil ==> forall(j, int, 0 <= j && j < len(res.MatchedBids) ==> qtyAt(res.MatchedBids[j], matchPrice) > 0 && indexIn(allowedBidders, Bidder, res.MatchedBids[j].Bidder) >= 0)
 //@ ensures [C16,C03] something-listed-iff-something-sold: res != nil ==> (matched == (len(res.MatchedBids) > 0)) && ((len(res.MatchedBids) > 0) == (res.MatchedAmount > 0))
+//@ exit [C03] {exact} the-bid-that-does-not-fit-is-within-its-bidders-final-capped-demand: res == nil ==> let(p, indexIn(allowedBidders, Bidder, bid.Bidder), p >= 0 && allowedBidders[p].Bidder == bid.Bidder && min(allowedBidders[p].MaxBidAmount, demUpTo(bid.Bidder, prices, bidsByPrice, len(prices), matchPrice)) >= matchedOf(local(res), bid.Bidder) + matchAmt && local(res).MatchedAmount + matchAmt > sellingAmt)
 //@ loop 0 invariant 0 <= idx && idx <= len(allowedBidders) && res.MatchedAmount == 0 && len(res.MatchedBids) == 0 && res.MatchPrice == matchPrice && forall(w, string, !has(res.MatchResultByBidder, w))
 //@ loop 0 invariant forall(k, int, 0 <= k && k < idx ==> has(biddableAmtByBidder, allowedBidders[k].Bidder) && biddableAmtByBidder[allowedBidders[k].Bidder] == allowedBidders[k].MaxBidAmount)
 //@ loop 0 invariant forall(w, string, has(biddableAmtByBidder, w) ==> indexIn(allowedBidders, Bidder, w) >= 0 && indexIn(allowedBidders, Bidder, w) < idx)
@@ -177,6 +180,9 @@ package types
 //@ loop 1 invariant 0 <= idx && idx <= len(prices) && forall(i, int, 0 <= i && i < idx ==> prices[i] >= matchPrice)
 //@ loop 1 invariant matchedBidsOK(res, allowedBidders, matchPrice) && (matched == (len(res.MatchedBids) > 0)) && ((len(res.MatchedBids) > 0) == (res.MatchedAmount > 0))
 //@ loop 1 invariant matchCore(res, biddableAmtByBidder, CAP, allowedBidders, sellingAmt, matchPrice)
+//@ loop 1 invariant {~light} forall(w, string, has(res.MatchResultByBidder, w) ==> exists(i, int, exists(j, int, 0 <= i && i < len(prices) && 0 <= j && j < len(bidsByPrice[decStr(prices[i])]) && bidsByPrice[decStr(prices[i])][j].Bidder == w)))
+//@ loop 1 invariant {~light} forall(w, string, has(res.MatchResultByBidder, w) ==> res.MatchResultByBidder[w].MatchedAmount >= 0 && res.MatchResultByBidder[w].PayingAmount >= 0)
+//@ loop 1 invariant {exact} forall(k, int, 0 <= k && k < len(allowedBidders) ==> matchedOf(res, allowedBidders[k].Bidder) <= min(allowedBidders[k].MaxBidAmount, demUpTo(allowedBidders[k].Bidder, prices, bidsByPrice, len(prices), matchPrice)))
 //@ loop 1 invariant {exact} res.MatchedAmount == matchedTotal(res, allowedBidders)
 //@ loop 1 invariant {exact} forall(w, string, demUpTo(w, prices, bidsByPrice, idx, matchPrice) <= demUpTo(w, prices, bidsByPrice, len(prices), matchPrice))
 //@ loop 1 invariant forall(w, string, demUpTo(w, prices, bidsByPrice, idx, matchPrice) >= 0)
@@ -185,14 +191,30 @@ package types
 //@ loop 1 invariant {pay} forall(w, string, has(CAP, w) ==> payBounds(res, w, matchPrice, cntUpTo(w, prices, bidsByPrice, idx, matchPrice)))
 //@ loop 2 invariant 0 <= idx && idx <= len(bidsByPrice[decStr(price)]) && price == prices[idx1] && 0 <= idx1 && idx1 < len(prices) && price >= matchPrice && forall(i, int, 0 <= i && i < idx1 ==> prices[i] >= matchPrice)
 //@ loop 2 invariant matchCore(res, biddableAmtByBidder, CAP, allowedBidders, sellingAmt, matchPrice)
+//@ loop 2 invariant {~light} forall(w, string, has(res.MatchResultByBidder, w) ==> exists(i, int, exists(j, int, 0 <= i && i < len(prices) && 0 <= j && j < len(bidsByPrice[decStr(prices[i])]) && bidsByPrice[decStr(prices[i])][j].Bidder == w)))
+//@ loop 2 invariant {~light} forall(w, string, has(res.MatchResultByBidder, w) ==> res.MatchResultByBidder[w].MatchedAmount >= 0 && res.MatchResultByBidder[w].PayingAmount >= 0)
 //@ loop 2 invariant {exact} forall(w, string, demUpTo(w, prices, bidsByPrice, idx1, matchPrice) + demGroup(w, bidsByPrice[decStr(prices[idx1])], idx, matchPrice) <= demUpTo(w, prices, bidsByPrice, idx1+1, matchPrice) && demUpTo(w, prices, bidsByPrice, idx1+1, matchPrice) <= demUpTo(w, prices, bidsByPrice, len(prices), matchPrice))
-//@ loop 2 invariant {exact} idx < len(bidsByPrice[decStr(price)]) ==> let(g, bidsByPrice[decStr(prices[idx1])], let(w, g[idx].Bidder, demUpTo(w, prices, bidsByPrice, idx1, matchPrice) + demGroup(w, g, idx+1, matchPrice) <= demUpTo(w, prices, bidsByPrice, idx1+1, matchPrice) && demUpTo(w, prices, bidsByPrice, idx1+1, matchPrice) <= demUpTo(w, prices, bidsByPrice, len(prices), matchPrice)))
+//@ loop 2 invariant {exact} idx < len(bidsByPrice[decStr(price)]) ==> let(g, bidsByPrice[decStr(prices[idx1])], let(w, g[idx].Bidder, demGroup(w, g, idx+1, matchPrice) == demGroup(w, g, idx, matchPrice) + qtyAt(g[idx], matchPrice) && demUpTo(w, prices, bidsByPrice, idx1, matchPrice) + demGroup(w, g, idx+1, matchPrice) <= demUpTo(w, prices, bidsByPrice, idx1+1, matchPrice) && demUpTo(w, prices, bidsByPrice, idx1+1, matchPrice) <= demUpTo(w, prices, bidsByPrice, len(prices), matchPrice)))
+//@ loop 2 invariant {exact} forall(k, int, 0 <= k && k < len(allowedBidders) ==> matchedOf(res, allowedBidders[k].Bidder) <= min(allowedBidders[k].MaxBidAmount, demUpTo(allowedBidders[k].Bidder, prices, bidsByPrice, len(prices), matchPrice)))
 //@ loop 2 invariant {exact} res.MatchedAmount == matchedTotal(res, allowedBidders) && indexIn(allowedBidders, Bidder, bidsByPrice[decStr(price)][idx].Bidder) >= -1
 //@ loop 2 invariant matchedBidsOK(res, allowedBidders, matchPrice) && (matched == (len(res.MatchedBids) > 0)) && ((len(res.MatchedBids) > 0) == (res.MatchedAmount > 0))
 //@ loop 2 invariant forall(w, string, demUpTo(w, prices, bidsByPrice, idx1, matchPrice) >= 0 && demGroup(w, bidsByPrice[decStr(price)], idx, matchPrice) >= 0)
 //@ loop 2 invariant {pay} forall(w, string, cntUpTo(w, prices, bidsByPrice, idx1, matchPrice) >= 0 && cntGroup(w, bidsByPrice[decStr(price)], idx) >= 0)
 //@ loop 2 invariant forall(w, string, has(CAP, w) ==> matchedOf(res, w) == min(CAP[w], demUpTo(w, prices, bidsByPrice, idx1, matchPrice) + demGroup(w, bidsByPrice[decStr(price)], idx, matchPrice)))
 //@ loop 2 invariant {pay} forall(w, string, has(CAP, w) ==> payBounds(res, w, matchPrice, cntUpTo(w, prices, bidsByPrice, idx1, matchPrice) + cntGroup(w, bidsByPrice[decStr(price)], idx)))
+
+// BidsByPrice (C03): the order book. Assumed, not verified: SortBids and the price ordering use sort.Slice, whose
+// reflection-based swapping is outside the verified subset; the contract is exercised by the bounded conformance test
+// of the thorough tier (/verif/conformance). The caller's slice is sorted in place, hence "modifies *bids".
+//@ func BidsByPrice
+//@ trusted uses sort.Slice (reflection-based swapping), outside the verified subset; bounded conformance test in the thorough tier
+//@ modifies *bids
+//@ ensures [C03] same-bids-reordered: len(bids) == old(len(bids)) && forall(m, int, 0 <= m && m < len(bids) ==> exists(k, int, 0 <= k && k < len(bids) && bids[m] == old(bids[k]))) && forall(k, int, 0 <= k && k < len(bids) ==> exists(m, int, 0 <= m && m < len(bids) && bids[m] == old(bids[k])))
+//@ ensures [C03] prices-strictly-descending: sortedDesc(prices) && len(prices) <= len(bids)
+//@ ensures [C03] every-level-has-its-group: forall(i, int, 0 <= i && i < len(prices) ==> has(bidsByPrice, decStr(prices[i])) && len(bidsByPrice[decStr(prices[i])]) >= 1)
+//@ ensures [C03] every-group-entry-is-a-bid-at-that-price: forall(i, int, forall(j, int, 0 <= i && i < len(prices) && 0 <= j && j < len(bidsByPrice[decStr(prices[i])]) ==> bidsByPrice[decStr(prices[i])][j].Price == prices[i] && exists(k, int, 0 <= k && k < len(bids) && bidsByPrice[decStr(prices[i])][j] == old(bids[k]))))
+//@ ensures [C03] every-group-entry-is-one-of-the-reordered-bids: forall(i, int, forall(j, int, 0 <= i && i < len(prices) && 0 <= j && j < len(bidsByPrice[decStr(prices[i])]) ==> exists(m, int, 0 <= m && m < len(bids) && bidsByPrice[decStr(prices[i])][j] == bids[m])))
+//@ ensures [C03] every-bid-is-in-the-group-of-its-price: forall(k, int, 0 <= k && k < len(bids) ==> exists(i, int, exists(j, int, 0 <= i && i < len(prices) && 0 <= j && j < len(bidsByPrice[decStr(prices[i])]) && bidsByPrice[decStr(prices[i])][j] == old(bids[k]))))
 
 // GenesisState.Validate (C15) accepts every genesis state whose objects are individually valid and whose store keys are
 // pairwise distinct: (auction id, bidder), (auction id, release time), (auction id, bid id), auction id. Only this
